@@ -12,7 +12,7 @@ META = {
     "technique": "Rocq proofs over hand-written Gallina models: (1) util/num/bigint.rs (Natural as u64 digit list + binary exponent, the carry / shift / strip algorithms at digit level): representation invariant preserved and every operation equals the N operation on val = mantissa * 2^exp, NaN exactly where documented; (2) Saturating<uW>; (3) the three sat_count_edge recursions and SatCountCache: exact counts, exact halvings, and transparency of a cache object reused across arbitrary histories for every number type. Tie to the code: lock-step differential runs of the extracted Natural/Saturating model against the real oxidd_core::util::num::{Natural, Saturating, F64} with an independent Zarith oracle (release and debug builds), and sat_count on real BDD/BCDD/ZBDD managers with one SatCountCache per number type reused across gc / reorder / recycled node ids / added variables / changing vars, every result compared with the exact count of the handle's value table",
     "category": "proof",
     "design_ref": "DESIGN.md section 5, C12",
-    "level_text": "55 theorems in coq/Props/C12.v (checked by coqc on every run, Print Assumptions audited: all closed under the global context). Natural (C12_nat_*), for unbounded operands satisfying the representation invariant Inv (which implies the code's check_inv and is decidable): nat_add = exact sum, NaN iff an operand is NaN or the exponent of the sum reaches u64::MAX; shl = multiplication by 2^k (NaN iff exponent overflow); shr = exact quotient, NaN iff a 1 bit would be shifted out; partial_cmp = order of the denoted numbers (None iff NaN); eq and the hashed data are canonical (equal iff same number, NaN = NaN); From<u8..u128> and from_le_digits denote their argument; TryFrom -> u64/u128 is Some iff the number fits; bit_width = 1 + floor(log2); the Binary output is `?` exactly for NaN and otherwise the bits of the number without leading zeros; every operation preserves Inv. Saturating<uW> (C12_su_*): add and << return the exact result below the marker T::MAX and the marker otherwise, the marker absorbs, >> and - of in-range values are exact. sat_count (C12_sat_*): the BDD / BCDD / ZBDD recursions in exact arithmetic return 2^(vars-levels) * #satisfying assignments; every halving (a+b)>>1 is exact; the in-call cache and a cache object reused over any history of calls (other handles, gc, reordering, added variables, other vars; hypothesis: equal gc_count of consecutive calls means the node table was only extended) are transparent for EVERY number type, hence exact counts for whole histories; an entry is used only under the (gc_count, vars) it was stored under; Saturating<uW> runs: BDD and BCDD exact while 2^vars is representable and the marker otherwise (0 stays 0), ZBDD exact while the count is representable and the marker otherwise. Non-vacuity examples for every group. On every run: stage 1 drives the real Natural through all operand pairs of the boundary set {0,1,2^k-1,2^k,2^k+1 | k in 31,32,63,64,65,127,128,129,191,192} (sum in both orders, all shifts {0,1,63,64,65,2^40,u64::MAX-1} in both directions, comparisons, conversions, text), conversions from all integer widths and back, f64 rounding at the precision/range limits, clone/clone_from between all representation shapes, random operands up to 512 bits in random op sequences, sat_count-like (a+b)>>1 accumulations, and Saturating<u64>/<u128>/F64 op sequences; every result is compared with the extracted model and with an independent Zarith oracle (kind=prop when the real result is not the exact value); release and debug (overflow checks, debug assertions) builds. Stage 2 runs sat_count on real managers (bdd, bcdd, zbdd): all 256 three-variable functions under a seed-chosen order (thorough: all 6), cache-reuse histories on functions over 4..10 variables with shared sub-DAGs (sat_count(f,a); gc | reorder | drop+gc+rebuild with recycled node ids | add_vars | nothing; exactly one sat_count(g,b); sat_count(h,a) on every handle sharing nodes with g; alternations), random interleavings; vars in {n, n+1, n+3, n+70, 1100}; types Saturating<u64>, Saturating<u128>, F64, Natural on reused caches and Natural on a fresh cache; every result must equal the exact count of the handle's value table.",
+    "level_text": "55 theorems in coq/Props/C12.v (checked by coqc on every run, Print Assumptions audited: all closed under the global context). Natural (C12_nat_*), for unbounded operands satisfying the representation invariant Inv (which implies the code's check_inv and is decidable): nat_add = exact sum, NaN iff an operand is NaN or the exponent of the sum reaches u64::MAX; shl = multiplication by 2^k (NaN iff exponent overflow); shr = exact quotient, NaN iff a 1 bit would be shifted out; partial_cmp = order of the denoted numbers (None iff NaN); eq and the hashed data are canonical (equal iff same number, NaN = NaN); From<u8..u128> and from_le_digits denote their argument; TryFrom -> u64/u128 is Some iff the number fits; bit_width = 1 + floor(log2); the Binary output is `?` exactly for NaN and otherwise the bits of the number without leading zeros; every operation preserves Inv. Saturating<uW> (C12_su_*): add and << return the exact result below the marker T::MAX and the marker otherwise, the marker absorbs, >> and - of in-range values are exact. sat_count (C12_sat_*): the BDD / BCDD / ZBDD recursions in exact arithmetic return 2^(vars-levels) * #satisfying assignments; every halving (a+b)>>1 is exact; the in-call cache and a cache object reused over any history of calls (other handles, gc, reordering, added variables, other vars; hypothesis: equal gc_count of consecutive calls means the node table was only extended) are transparent for EVERY number type, hence exact counts for whole histories; an entry is used only under the (gc_count, vars) it was stored under; Saturating<uW> runs: BDD and BCDD exact while 2^vars is representable and the marker otherwise (0 stays 0), ZBDD exact while the count is representable and the marker otherwise. Non-vacuity examples for every group. On every run: stage 1 drives the real Natural through all operand pairs of the boundary set {0,1,2^k-1,2^k,2^k+1 | k in 31,32,63,64,65,127,128,129,191,192} (sum in both orders, all shifts {0,1,63,64,65,2^40,u64::MAX-1} in both directions, comparisons, conversions, text), conversions from all integer widths and back, f64 rounding at the precision/range limits, clone/clone_from between all representation shapes, random operands up to 512 bits in random op sequences, sat_count-like (a+b)>>1 accumulations, and Saturating<u64>/<u128>/F64 op sequences; every result is compared with the extracted model and with an independent Zarith oracle (kind=prop when the real result is not the exact value); release and debug (overflow checks, debug assertions) builds. Stage 2 runs sat_count on real managers (bdd, bcdd, zbdd): all 256 three-variable functions under a seed-chosen order (thorough: all 6), cache-reuse histories on functions over 4..10 variables with shared sub-DAGs (sat_count(f,a); gc | reorder | drop+gc+rebuild with recycled node ids | add_vars | nothing; exactly one sat_count(g,b); sat_count(h,a) on every handle sharing nodes with g; alternations), random interleavings, small managers with adjacent-level swaps and handle turnover between queries under one vars value (freed node slots re-used by newly built functions); vars in {n, n+1, n+3, n+70, 1100}; types Saturating<u64>, Saturating<u128>, F64, Natural on reused caches and Natural on a fresh cache; every history runs on the index-based manager (release; a sample also in the debug profile) and on the pointer-based manager build (cfg-pointer, node ids = addresses); every result must equal the exact count of the handle's value table.",
     "level_note": "Proved at model level; trusted: Coq kernel, extraction, the OCaml drivers, the Rust harnesses, and that Num/Natural.v / DD/SatCount.v mirror the code (checked by the lock-step runs on every check). Not proved, correspondence only: Natural's Display/Octal/Hex output and the padding with width/fill/alternate flags of all formats (the digit string of Binary is proved; decimal digits come from dashu_int::UBig) and Natural -> f64 rounding (both compared with the extracted model and Zarith/OCaml on every run); F64 as a counting type (IEEE-754 FPU and exp2 assumed; results compared with the exact count, exactly below 2^53 and within 1e-9 relative above). The digit loops of Natural::add exist in several variants in the code (in place / fresh vector, zipped / unzipped tails) which are one function in the model; clone/clone_from and memory management are run-time matters covered by the harness only. The epoch discipline of the manager (gc_count strictly increases at every gc and reordering, node ids are not recycled otherwise) is the hypothesis hist_ok of the history theorems; it is exercised by stage 2, not proved here.",
 }
 
@@ -268,6 +268,44 @@ def dd_case_random(cid, kind, rng, length):
     return (ddgen.header(cid, kind, cap=1 << 15, cache=rng.choice([16, 1 << 10])), ops)
 
 
+def dd_case_swap(cid, kind, rng, rounds):
+    """small managers, queries with ONE vars value and ONE number type around reorderings that exchange
+    two adjacent levels (often without changing the number of nodes) and around handle turnover: the
+    nodes freed by the reordering / collection are re-used by the functions built afterwards, so a
+    cache that survives the event answers for the wrong function"""
+    nv = rng.randrange(3, 6)
+    ops = [f"VARS {nv}"]
+    pool = _Pool(rng, nv, ops)
+    pool.grow(rng.randrange(1, 3), rng.randrange(0, 3), rng.randrange(1, 5))
+    order = list(range(nv))
+    ty = rng.choice(["u64", "u128", "f64", "nat", "nat"])
+    a = rng.choice(dd_vars(kind, nv)[:3])
+    ops.append("GC")
+    ops.append("SNAP")
+    for _ in range(rounds):
+        for h in pool.live:
+            ops.append(f"SAT h{h} {a} {ty}")
+        ev = rng.random()
+        if ev < 0.7:
+            i = rng.randrange(nv - 1)
+            order[i], order[i + 1] = order[i + 1], order[i]
+            ops.append(f"{rng.choice(['ORDER', 'ORDERSEQ'])} " + " ".join(map(str, order)))
+        elif ev < 0.85:
+            ops.append("SNAP")
+            pool.drop_some(keep=1)
+            ops.append("GC")
+        if rng.random() < 0.8:
+            # new functions take the freed slots
+            pool.grow(rng.randrange(0, 2), rng.randrange(0, 2), rng.randrange(1, 4))
+        for h in reversed(pool.live):
+            ops.append(f"SAT h{h} {a} {ty}")
+        ops.append("SNAP")
+        if len(pool.live) > 12:
+            pool.drop_some(keep=3)
+            ops.append("SNAP")
+    return (ddgen.header(cid, kind, cap=1 << 14, cache=rng.choice([16, 1 << 10])), ops)
+
+
 def gen_dd_cases(ctx):
     rng = random.Random(ctx.seed * 104729 + 12)
     thorough = ctx.tier == "thorough"
@@ -280,6 +318,8 @@ def gen_dd_cases(ctx):
             cases.append(dd_case_reuse(f"ru-{kind}-{i}", kind, rng, rounds=rng.randrange(4, 10)))
         for i in range(300 if thorough else 24):
             cases.append(dd_case_random(f"rn-{kind}-{i}", kind, rng, length=rng.randrange(80, 200)))
+        for i in range(1500 if thorough else 120):
+            cases.append(dd_case_swap(f"sw-{kind}-{i}", kind, rng, rounds=rng.randrange(2, 6)))
     return cases
 
 
@@ -288,9 +328,50 @@ DD_RULE = ("stage 2 (sat_count on real managers, kinds bdd/bcdd/zbdd): all 256 t
            "cache-reuse histories on functions over 4..10 variables with shared sub-DAGs (one SatCountCache per number type "
            "per case): sat_count(f,a); event in {gc, reorder, drop+gc+rebuild (node ids recycled), add_vars, gc+add_vars, none}; "
            "exactly one sat_count(g,b); sat_count(h,a) on every handle sharing nodes with g; alternations of a and b; random "
-           "interleavings; vars in {n, n+1, n+3, n+70, 1100}; types Saturating<u64>, Saturating<u128>, F64, Natural "
+           "interleavings; small managers with adjacent-level swaps / handle turnover between queries under one vars value (freed node "
+           "slots re-used by newly built functions); every history also on the pointer-based manager build (cfg-pointer: node ids are "
+           "addresses); vars in {n, n+1, n+3, n+70, 1100}; types Saturating<u64>, Saturating<u128>, F64, Natural "
            "(reused cache) and Natural with a fresh cache per query; every result compared with the exact count of the handle's "
            "value table")
+
+
+POINTER_CFG = "cfg-pointer"
+
+
+def build_pointer():
+    """h_dd on the pointer-based manager (node ids are addresses; the same target directory as C20)"""
+    return vf.cargo_build(["h_dd"], features=[POINTER_CFG], no_default=True, target_sub=POINTER_CFG)["h_dd"]
+
+
+def run_dd_pointer(ctx, cases):
+    """the same cases on the pointer build: same driver, same relation"""
+    binp = build_pointer()
+    _, drv = ddcommon.build_dd(ctx)
+    args = ["--props", "C12"]
+    pcases = [("ptr-" + h, ops) for h, ops in cases]
+    ok, bad, _ = vf.lockstep_sharded(ctx, binp, drv, pcases, nshards=16, drv_args=args, tag="-ptr")
+    by_id = {h.split()[0]: (h, ops) for h, ops in pcases}
+    seen = set()
+    for cid, msg in bad:
+        cls = ddcommon.msg_class(msg)
+        if cls in seen or len(seen) >= 2:
+            continue
+        seen.add(cls)
+        header, ops = by_id[cid]
+        kind = "prop" if "kind=prop" in msg else "corr"
+        small, smsg = vf.shrink_case(ctx, binp, drv, header, ops, kind, drv_args=args, budget=120,
+                                     protect=lambda o: o.startswith("VARS"),
+                                     accept=lambda m2, c=cls: ddcommon.msg_class(m2) == c)
+        smsg = smsg or msg
+        hk = " ".join(t for t in header.split()[1:] if t.split("=")[0] in ("kind", "threads"))
+        body = ";".join(small) if len(small) <= 30 else f"case-{cid}"
+        vf.report_violation(
+            ctx, f"{kind}:{cls[0]}:{cls[1]}:{hk}:{POINTER_CFG}:{body}",
+            {"stage": "correspondence", "kind": kind, "config": POINTER_CFG, "case_header": header, "ops": small,
+             "verdict": smsg, "drv_args": args, "replay_cmd": "./check C12 --replay <this file>",
+             "theorem_or_relation": "C12: sat_count on a reused cache == exact count of the handle's value table (pointer-based manager build); coq/Props/C12.v C12_sat_history_exact"},
+            nfif=(kind != "prop"))
+    return ok, bad
 
 
 def run_dd_stage(ctx):
@@ -301,6 +382,10 @@ def run_dd_stage(ctx):
                               nshards=16, max_reports=2)
     dd_samples = ctx.samples
     dd_distinct = ctx.stats.get("distinct_nontrivial", 0)
+    # the same histories on the pointer-based manager (thorough: all; quick: everything but the big sweeps)
+    pcases = cases if ctx.tier == "thorough" else [c for c in cases if not c[0].startswith("a3-")]
+    okp, badp = run_dd_pointer(ctx, pcases)
+    bad = list(bad) + list(badp)
     ctx.samples = samples
     ctx.stats["distinct_nontrivial"] = before.get("distinct_nontrivial", 0)
     if ctx.stats.get("unresolved", 0) and not bad:
@@ -308,6 +393,7 @@ def run_dd_stage(ctx):
         # (only meaningful without violations: the candidates of the shrinker may contain such ops)
         raise vf.CheckFailure(f"DD stage: {ctx.stats['unresolved']} operations could not be resolved by the driver")
     return {"dd_cases": len(cases), "dd_cases_ok": ok, "dd_cases_bad": len(bad),
+            "dd_pointer_build_cases": len(pcases), "dd_pointer_build_cases_ok": okp,
             "dd_sat_queries_checked": int(ctx.stats.get("chk_C12", 0)),
             "dd_distinct_nontrivial": dd_distinct}, dd_samples
 
@@ -368,6 +454,18 @@ def run(ctx):
 def replay(ctx, path):
     r = json.load(open(path))
     hdr = r.get("case_header", "")
+    if r.get("config") == POINTER_CFG:
+        binp = build_pointer()
+        _, drv = ddcommon.build_dd(ctx)
+        f = os.path.join(ctx.workdir, "replay.txt")
+        vf.write_cases(f, [(hdr, r["ops"])])
+        ok, bad = vf.lockstep(ctx, binp, drv, f, tag="-replay", drv_args=r.get("drv_args", []))
+        for cid, msg in bad:
+            print(f"replay: case {cid}: {msg}")
+            vf.report_violation(ctx, "replay:" + ";".join(r["ops"][:30]), r, nfif=False)
+        if not bad:
+            print("replay: no divergence")
+        return
     if " kind=" in hdr and hdr.split(" kind=")[1].split()[0] not in ddcommon.NON_DD_KINDS:
         # a case of the DD stage
         return ddcommon.replay_dd(ctx, path)
